@@ -57,3 +57,52 @@ Example C07_witness :
   fn_mid [VStr s; VInt 2; VInt 3] = Ok (VStr [233; 26085; 128512])
   /\ fn_instr [VStr s; VStr [26085]] = Ok (VInt 3) /\ fn_len (VStr s) = Ok (VInt 5).
 Proof. vm_compute. repeat split; reflexivity. Qed.
+
+(* ---- the limit, concatenation, comparison, STRING$, HEX$ / OCT$ (Proofs/Strings2.v) ---- *)
+From BL Require Import Mach.Ops Mach.Var Proofs.Strings2.
+
+(* the 255-character limit sits where a string is stored *)
+Theorem C07_string_store_limit : forall s, convert_to TStr (VStr s) = if 255 <? lenN s then err E_StringTooLong else Ok (VStr s).
+Proof. exact string_store_limit. Qed.
+Print Assumptions C07_string_store_limit.
+
+Theorem C07_concat_is_append : forall a b, op_sum (VStr a) (VStr b) = Ok (VStr (a ++ b)).
+Proof. exact concat_is_append. Qed.
+Print Assumptions C07_concat_is_append.
+
+(* comparison is lexicographic on character codes; a proper prefix is smaller; equality is equality of the sequences *)
+Theorem C07_less_is_lexicographic : forall a b, str_ltb a b = true <-> lex_lt a b.
+Proof. exact str_ltb_lex. Qed.
+Print Assumptions C07_less_is_lexicographic.
+
+Theorem C07_string_less : forall a b, op_less (VStr a) (VStr b) = Ok (if str_ltb a b then VInt (-1) else VInt 0).
+Proof. exact string_less. Qed.
+Print Assumptions C07_string_less.
+
+Theorem C07_string_equal : forall a b, op_equal (VStr a) (VStr b) = Ok (if str_eqb a b then VInt (-1) else VInt 0).
+Proof. exact string_equal. Qed.
+Print Assumptions C07_string_equal.
+
+Theorem C07_equal_is_equality : forall a b, str_eqb a b = true <-> a = b.
+Proof. exact str_eqb_eq. Qed.
+Print Assumptions C07_equal_is_equality.
+
+Theorem C07_string_fn : forall n c rest, (0 <= n <= 255)%Z -> fn_string (VInt n) (VStr (c :: rest)) = Ok (VStr (repeatN c (Z.to_N n))).
+Proof. exact string_fn. Qed.
+Print Assumptions C07_string_fn.
+
+Theorem C07_string_fn_too_long : forall n cv, (255 < n <= 32767)%Z -> fn_string (VInt n) cv = err E_Overflow.
+Proof. exact string_fn_too_long. Qed.
+Print Assumptions C07_string_fn_too_long.
+
+(* HEX$ and OCT$ produce digits that the interpreter's own radix reader (the one behind &H.. and &.. literals and VAL) turns
+   back into the 16-bit pattern of the argument *)
+Theorem C07_hex_reads_back : forall n, (-32768 <= n <= 32767)%Z ->
+  exists s, fn_hex (VInt n) = Ok (VStr s) /\ radix_digits 16 s 0 = Some (u16_of_i16 n).
+Proof. exact hex_reads_back. Qed.
+Print Assumptions C07_hex_reads_back.
+
+Theorem C07_oct_reads_back : forall n, (-32768 <= n <= 32767)%Z ->
+  exists s, fn_oct (VInt n) = Ok (VStr s) /\ radix_digits 8 s 0 = Some (u16_of_i16 n).
+Proof. exact oct_reads_back. Qed.
+Print Assumptions C07_oct_reads_back.
